@@ -8,6 +8,15 @@ from debian_inspector.version import Version
 impl = _ver.impl
 
 
+def _printed(v):
+    import contextlib
+    import io
+    buf = io.StringIO()
+    with contextlib.redirect_stdout(buf):
+        print(v, end='')
+    return buf.getvalue()
+
+
 def p_roundtrip(s):
     try:
         v = Version.from_string(s)
@@ -28,7 +37,7 @@ def p_roundtrip(s):
     # every way of printing gives the same text
     import copy
     import pickle
-    ways = {'format(v)': format(v), 'f-string': f'{v}', '{}.format': '{}'.format(v), '{!s}': '{!s}'.format(v), '%s': '%s' % (v,),
+    ways = {'format(v)': format(v), 'f-string': f'{v}', '{}.format': '{}'.format(v), '{!s}': '{!s}'.format(v), '%s': '%s' % (v,), '%s %% v (not wrapped in a tuple)': '%s' % v, 'join': ''.join([str(v)]), 'print': _printed(v),
             'str of a copy': str(copy.copy(v)), 'str of a deep copy': str(copy.deepcopy(v)),
             'str after pickling': str(pickle.loads(pickle.dumps(v))), 'second str': str(v)}
     for how, txt in ways.items():
